@@ -257,7 +257,7 @@ func runFormat() *ShardResult {
 		depth = 5
 	}
 	deadline := time.Now().Add(*fBudget)
-	cfgs := []core.Config{{SegSize: 128}, {SegSize: 200}, {SegSize: 4096}}
+	cfgs := []core.Config{{SegSize: 128}, {SegSize: 200}, {SegSize: 64}, {SegSize: 4096}}
 	res.Bounds["depth"] = depth
 	res.Bounds["configs"] = cfgs
 	res.Bounds["payload_sizes"] = "0..7 (all 8 padding residues), batches [3,6] and [5,0,2]"
